@@ -42,6 +42,30 @@ def run_case(case):
             _reset(b)
 
 
+import enum
+
+
+class Kind(enum.IntEnum):
+    ZERO = 0
+    ONE = 1
+    TWO = 2
+    THREE = 3
+    FOUR = 4
+    FIVE = 5
+
+
+def _tag_value(v, how):
+    """the same tag value in another integer type"""
+    if how == "enum":
+        return Kind(v)
+    if how == "bool" and v in (0, 1):
+        return bool(v)
+    if how == "numpy":
+        import numpy as np
+        return np.int64(v)
+    return v
+
+
 def _make(cls, model, tag, n):
     if issubclass(cls, SpaceWorld):
         return cls(model, 5, 4)
@@ -179,7 +203,7 @@ def _run(case, model):
             tag = op.get("tag")
             if issubclass(cls, Environment):
                 tag = None
-            obj = _make(cls, model, None if tag is None else int(tag) % 6, len(instances))
+            obj = _make(cls, model, None if tag is None else _tag_value(int(tag) % 6, op.get("tagtype")), len(instances))
             etag = tags[ci] if tag is None else int(tag) % 6
             instances.append((obj, etag, {}))
             labels.add("instance-default-tag" if tag is None else "instance-explicit-tag")
@@ -220,8 +244,10 @@ def strategy(tier):
         st.fixed_dictionaries({"op": st.just("rem_cc"), "cls": cls, "t": t}),
         st.fixed_dictionaries({"op": st.just("set_tag"), "cls": cls, "v": st.integers(0, 5)}),
         st.fixed_dictionaries({"op": st.just("set_tag"), "cls": cls, "v": st.integers(0, 5)}),
-        st.fixed_dictionaries({"op": st.just("new"), "cls": cls, "tag": wone_of(st.none(), st.none(), st.integers(0, 5))}),
-        st.fixed_dictionaries({"op": st.just("new"), "cls": cls, "tag": wone_of(st.none(), st.none(), st.integers(0, 5))}),
+        st.fixed_dictionaries({"op": st.just("new"), "cls": cls, "tag": wone_of(st.none(), st.none(), st.integers(0, 5)),
+                               "tagtype": st.sampled_from(["int", "int", "enum", "bool", "numpy"])}),
+        st.fixed_dictionaries({"op": st.just("new"), "cls": cls, "tag": wone_of(st.none(), st.integers(0, 5)),
+                               "tagtype": st.sampled_from(["int", "enum", "bool", "numpy"])}),
         st.fixed_dictionaries({"op": st.just("inst_add"), "i": st.integers(0, 9), "t": t}),
         st.fixed_dictionaries({"op": st.just("subclass"), "cls": cls}),
         st.fixed_dictionaries({"op": st.just("fill_cc"), "cls": cls}),
